@@ -46,8 +46,7 @@ Definition sp : str := [c_space].
 
 Definition postfix_needs_paren (lhs : ast) : bool :=
   match lhs with
-  | APostfix _ _ | ATernary _ _ _ => true
-  | AUnary _ operand => is_infix_like lhs || negb (match operand with APostfix _ _ => true | _ => false end)
+  | ATernary _ _ _ | AUnary _ _ => true
   | _ => is_infix_like lhs
   end.
 
